@@ -133,7 +133,7 @@ def shard_fn(shard, nshards, seed, tier, exe, npairs):
 def run(tier, seed):
     bdir = build.build("asan")
     chk = core.Check(PID, tier, seed)
-    sh = core.parallel(shard_fn, seed=seed, tier=tier, exe=bdir + "/jcdrv", npairs=20000 if tier == "quick" else 400000)
+    sh = core.parallel(shard_fn, seed=seed, tier=tier, exe=bdir + "/jcdrv", npairs=60000 if tier == "quick" else 400000)
     chk.absorb(sh)
     chk.rule = ("(limit D, document) pairs: D in 1..64,100,1000 x shapes (arrays, objects, alternating, random) x boundary reached via only/first/middle/last child x enclosure m in D-2..D+2 "
                 "x leaf kinds (scalar, empty containers), one-shot and chunked, plus generated documents with max enclosure around D-1, plus inputs nested 10D / 10^5 (/10^6) deep for the "
